@@ -65,7 +65,7 @@ Fixpoint csem (s : stmt) (ls : list N) {struct s} : comps :=
   | SExpr _ e => cset_T (e_throws e) only_N
   | SEmpty _ => only_N
   | SVar _ _ i => cset_T (oe_throws i) only_N
-  | SFnDecl _ _ _ _ | SArrowStmt _ _ _ => only_N
+  | SFnDecl _ _ _ _ | SArrowStmt _ _ _ | SGetterStmt _ _ _ _ => only_N
   | SRet _ a => {| cN := false; cR := true; cT := oe_throws a; cB0 := false; cC0 := false; cBL := []; cCL := [] |}
   | SThrow _ _ => t_if true
   | SBrk _ None => {| cN := false; cR := false; cT := false; cB0 := true; cC0 := false; cBL := []; cCL := [] |}
@@ -82,7 +82,7 @@ Fixpoint csem (s : stmt) (ls : list N) {struct s} : comps :=
   | SDoWhile _ b c => sem_loop CTrue c ls (csem b [])
   | SFor _ (Some c) b => sem_loop c CTrue ls (csem b [])
   | SFor _ None b => sem_loop CTrue CTrue ls (csem b [])
-  | SForIn _ b | SForOf _ b => sem_loop opaque CTrue ls (csem b [])
+  | SForIn _ b | SForOf _ b | SForHead _ _ _ _ _ b => sem_loop opaque CTrue ls (csem b [])
   | SSwitch _ cs =>
       let ca := snd (csem_c cs) in
       {| cN := cN ca || cB0 ca || negb (has_default cs); cR := cR ca; cT := cT ca || tests_throw cs; cB0 := false; cC0 := cC0 ca;
@@ -115,7 +115,8 @@ with csem_c (cs : cases) {struct cs} : comps * comps :=
 Fixpoint reach (s : stmt) : list N :=
   pos s ::
   match s with
-  | SFnDecl _ _ _ b | SArrowStmt _ _ b | SBlock _ b => reach_l b
+  | SFnDecl _ _ _ b | SArrowStmt _ _ b | SGetterStmt _ _ _ b | SBlock _ b => reach_l b
+  | SForHead _ _ _ _ hb b => reach_l hb ++ reach b
   | SIf _ c a => if may_true c then reach a else []
   | SIfElse _ c a b => (if may_true c then reach a else []) ++ (if may_false c then reach b else [])
   | SWhile _ c b | SFor _ (Some c) b => if may_true c then reach b else []
